@@ -204,6 +204,7 @@ pub proof fn lemma_line_bytes(kw: Seq<u8>, a: Seq<u8>, b: Seq<u8>, p: Seq<u8>, q
 }
 
 /// the pieces of a proper prefix of a TCP line: the first i fields and a prefix g of the next one
+#[verifier::rlimit(60)]
 pub proof fn lemma_tcp_prefix_parts(kw: Seq<u8>, a: Seq<u8>, b: Seq<u8>, p: Seq<u8>, q: Seq<u8>, k: int) -> (r: (int, Seq<u8>))
     requires no_sep(kw), no_sep(a), no_sep(b), no_sep(p), no_sep(q), 0 <= k < tcp_line(kw, a, b, p, q).len()
     ensures ({
@@ -269,6 +270,7 @@ pub proof fn lemma_prefix_case0(w: Seq<u8>)
 }
 
 /// case 1: the cut falls inside (or at the end of) the protocol keyword
+#[verifier::rlimit(60)]
 pub proof fn lemma_prefix_case1(w: Seq<u8>, g: Seq<u8>, kw: Seq<u8>)
     requires
         splitn_spec(w, 7) =~= seq![b_proxy(), g], w =~= b_proxy() + seq![32u8] + g,
@@ -325,6 +327,7 @@ pub proof fn lemma_prefix_case1(w: Seq<u8>, g: Seq<u8>, kw: Seq<u8>)
 pub open spec fn from_kw_fields_ok(kw: Seq<u8>) -> bool { true }
 
 /// cases 2..6: `PROXY`, the keyword and between one and five further pieces
+#[verifier::rlimit(60)]
 pub proof fn lemma_prefix_case_fields(w: Seq<u8>, v4: bool, a: Seq<u8>, b: Seq<u8>, p: Seq<u8>, q: Seq<u8>, i: int, g: Seq<u8>)
     requires
         2 <= i <= 6,
@@ -527,6 +530,7 @@ pub proof fn lemma_c05_v1_unknown(l: Seq<u8>, k: int)
 // [props: C05]
 /// C05 for the text entry point: every proper prefix of a well-formed line (US-ASCII, so every
 /// prefix is valid UTF-8) is reported incomplete
+#[verifier::rlimit(60)]
 pub proof fn lemma_c05_v1(l: Seq<u8>, a: V1Addresses, k: int)
     requires wf_line(l, a), 0 <= k < l.len(), vstd::utf8::valid_utf8(l.subrange(0, k))
     ensures v1v_incomplete(entry_verdict_str(l.subrange(0, k)))
